@@ -41,7 +41,13 @@ def load_findings(pid):
     if not os.path.exists(path):
         return []
     data = json.load(open(path))
-    return [f for f in data.get("findings", []) if f.get("property") == pid]
+    out = [f for f in data.get("findings", []) if f.get("property") == pid]
+    # development fragments (merged into known_findings.json by the integrator, then removed)
+    frag = os.path.join(VERIF, "known_findings.d", f"{pid}.json")
+    if os.path.exists(frag):
+        have = {f["id"] for f in out}
+        out += [f for f in json.load(open(frag)).get("findings", []) if f.get("property") == pid and f["id"] not in have]
+    return out
 
 
 def load_corpus(pid):
